@@ -172,6 +172,7 @@ pub fn gen(tier: &str, seed: u64) -> Gen {
         let builders = [
             "list k v k w", "list a 1 b 2 a 3", "list 1 2 3", "dict create a 1 b 2", "list {set m} {$n}", "list incr m",
             "string cat { 3} { }", "list {} {}", "list a {b c} d e", "expr {0x10}", "expr {7 - 4}", "list -0 +1",
+            "list \"C:\\\\work\\\\\" src docs", "list \"a\\\\\" \"\\{\" k", "dict create \"k\\\\\" v", "list \"#\" \"a b\" \"\\{\"", "list \"a\\vb\" 1",
         ];
         let (mut p, mut s2) = if rng.chance(1, 3) {
             let b = builders[rng.below(builders.len())];
